@@ -207,6 +207,16 @@ impl Generator {
                     let keys: Vec<u64> = (0..positions).map(|_| self.rng.below(self.keys)).collect();
                     return Some(Ev::MGet(keys, 1 + self.rng.below(2) as u8));
                 }
+                // an iterator used the way iterators are used: opened, then asked for its items ONE AT A TIME with other events
+                // (writes, deletes, worker steps, sweeps, clock moves, shutdown) in between — each `next()` is a read of its own
+                match engine.iter_keys.as_ref() {
+                    Some(keys) => if self.rng.chance(45) { return Some(Ev::IterNext(keys.first().copied())); },
+                    None => if self.rng.chance(10) {
+                        let positions = 2 + self.rng.below(4);
+                        let keys: Vec<u64> = (0..positions).map(|_| self.key()).collect();
+                        return Some(Ev::IterOpen(keys, 1 + self.rng.below(2) as u8));
+                    },
+                }
                 if self.rng.chance(85) { return Some(Ev::Get(self.key(), self.rng.below(4) as u8)); }
                 let mut keys: Vec<u64> = (0..self.keys).filter(|_| self.rng.chance(60)).collect();
                 if self.rng.chance(50) { keys.reverse(); }
